@@ -195,8 +195,10 @@ func (s *initialCryptoStream) Write(p []byte) (int, error) {
 			return len(p), nil
 		}
 		s.end = protocol.ByteCount(len(s.writeBuf))
-		s.cuts[0].start = protocol.ByteCount(sniPos + sniLen/2) // right in the middle
-		s.cuts[0].end = protocol.ByteCount(sniPos + sniLen)
+		if sniPos != -1 {
+			s.cuts[0].start = protocol.ByteCount(sniPos + sniLen/2) // right in the middle
+			s.cuts[0].end = protocol.ByteCount(sniPos + sniLen)
+		}
 		if echPos > 0 {
 			// ECH extension found, cut the ECH extension type value (a uint16) in half
 			start := protocol.ByteCount(echPos + 1)
@@ -204,9 +206,13 @@ func (s *initialCryptoStream) Write(p []byte) (int, error) {
 			// cut somewhere (16 bytes), most likely in the ECH extension value
 			s.cuts[1].end = min(start+16, s.end)
 		}
+		// Valid cuts first: HasData and PopCryptoFrame rely on cuts[0] being valid whenever any cut is.
 		slices.SortFunc(s.cuts[:], func(a, b clientHelloCut) int {
 			if a.start == protocol.InvalidByteCount {
 				return 1
+			}
+			if b.start == protocol.InvalidByteCount {
+				return -1
 			}
 			if a.start > b.start {
 				return 1
